@@ -44,7 +44,13 @@ func New(r ReadSeekSizer) *Parser {
 	p := &Parser{
 		r: r,
 	}
-	err := p.SeekPos(0)
+	// The position 0 lies inside the (empty) buffer window of a new parser,
+	// so SeekPos(0) would not move the underlying reader.
+	_, err := r.Seek(0, io.SeekStart)
+	if err != nil {
+		panic(err)
+	}
+	err = p.SeekPos(0)
 	if err != nil {
 		panic(err)
 	}
